@@ -3,7 +3,7 @@
 P="$1"; ID="$2"; T="${3:-quick}"
 cd /repo || exit 9
 git diff --quiet || { echo "/repo has uncommitted changes"; exit 9; }
-git apply "$P" || { echo "patch does not apply"; exit 9; }
+git apply "$(realpath "$OLDPWD/$P" 2>/dev/null || echo "$P")" || { echo "patch does not apply"; exit 9; }
 cd /verif && ./vrun "$ID" "$T" > /tmp/mutest.$$.log 2>&1; rc=$?
 git -C /repo checkout -- . ; git -C /repo clean -fdq
 echo "patch=$(basename $(dirname $P))/$(basename $P) check=$ID tier=$T exit=$rc violations=$(grep -c '^VIOLATION' /tmp/mutest.$$.log)"
